@@ -79,7 +79,19 @@ class _WinNotFound(FileNotFoundError):
     winerror = None
 
 
+class TimeoutExpired(Exception):
+    pass
+
+
+class TimeoutAbandoned(Exception):
+    pass
+
+
 def make_error(plat, err):
+    if err == "WTIMEOUT":          # WaitForSingleObject -> WAIT_TIMEOUT (not an OSError)
+        return TimeoutExpired()
+    if err == "WABANDONED":
+        return TimeoutAbandoned()
     if plat != "windows":
         n = getattr(_errno, err)
         return OSError(n, _os.strerror(n))
@@ -98,8 +110,15 @@ class World:
     def __init__(self):
         self.reset()
 
-    def reset(self, pid=7, state="alive", site=None, err=None, records=None, notty=False):
+    def reset(self, pid=7, state="alive", site=None, err=None, records=None, notty=False, faults=None):
+        """faults: {site: [(count or None, err or None), ...]} -- the first `count` invocations of that native call
+        end with err (None = succeed), then the next segment applies; count None = all remaining invocations.
+        site/err = the single-fault shorthand {site: [(None, err)]}."""
         self.pid, self.state, self.site, self.err = pid, state, site, err
+        self.faults = dict(faults or {})
+        if site is not None and err is not None:
+            self.faults[site] = [(None, err)]
+        self.ncalls = {}
         self.records = records or {}
         self.notty = notty
         self.fired = 0
@@ -110,19 +129,24 @@ class World:
     def listed(self, pid=None):
         return self.state != "gone"
 
+    def fault_for(self, names):
+        """err (or None) for this invocation of the native call known under `names` (most specific first)."""
+        for n in names:
+            if n in self.faults:
+                k = self.ncalls.get(n, 0)
+                self.ncalls[n] = k + 1
+                for count, err in self.faults[n]:
+                    if count is None or k < count:
+                        return err
+                    k -= count
+                return None
+        return None
+
     def status_code(self):
         """Name of the native status constant of a listed process: 'code:<NAME>' states name it directly."""
         if self.state.startswith("code:"):
             return self.state[5:]
         return "SZOMB" if self.state == "zombie" else "SSTOP"
-
-
-class TimeoutExpired(Exception):
-    pass
-
-
-class TimeoutAbandoned(Exception):
-    pass
 
 
 class Layer:
@@ -187,9 +211,13 @@ class Layer:
                 raise OSError(_errno.ESRCH, "No such process")
         else:
             w.calls.append(fname)
-            if w.site == fname and w.err is not None:
+            names = [fname]
+            if fname == "proc_cmdline" and self.plat == "windows":
+                names.insert(0, "proc_cmdline[peb]" if kw.get("use_peb") else "proc_cmdline[nopeb]")
+            err = w.fault_for(names)
+            if err is not None:
                 w.fired += 1
-                e = make_error(self.plat, w.err)
+                e = make_error(self.plat, err)
                 w.raised.append(e)
                 raise e
         return fn(*a, **kw)
@@ -275,6 +303,7 @@ class Layer:
             f["getpagesize"] = lambda: 4096
             f["proc_memory_maps"] = lambda *a: []
             f["proc_kill"] = lambda *a: None
+            f["proc_wait"] = lambda *a: 0
             f["proc_username"] = lambda *a: ("DOM", "usr")
             f["proc_suspend_or_resume"] = lambda *a: None
             f["proc_cwd"] = lambda *a: "C:\\cwd\\"
@@ -329,6 +358,13 @@ class Layer:
                     ls = ["1"] + ([str(L.world.pid)] if L.world.listed() else []) + ["self", "net"]
                     return [x.encode() for x in ls] if isinstance(p, bytes) else ls
                 return L.native("os.listdir", lambda *x: ["1", "2"], (p,), {})
+
+            def waitpid(self, pid, flags):               # _psposix.wait_pid (timeout=0 -> WNOHANG)
+                def real(pid, flags):
+                    if not L.world.listed():
+                        raise ChildProcessError(_errno.ECHILD, "No child processes")
+                    return (0, 0)                        # still running
+                return L.native("os.waitpid", real, (pid, flags), {})
 
             def kill(self, pid, sig):                    # only reached from the private copy of _psposix
                 if pid == L.world.pid and not L.world.listed():
@@ -434,7 +470,7 @@ class Layer:
 
     # ------------------------------------------------------------ driving
     def methods(self):
-        skip = {"oneshot_enter", "oneshot_exit", "wait"}
+        skip = {"oneshot_enter", "oneshot_exit"}
         out = []
         for n in sorted(dir(self.mod.Process)):
             if n.startswith("_") or n in skip:
@@ -445,12 +481,12 @@ class Layer:
 
     def args_for(self, meth):
         return {"nice_set": (10,), "cpu_affinity_set": ([0],), "rlimit": (1,), "net_connections": ("inet",),
-                "ionice_set": (2, 0), "send_signal": (signal.SIGTERM,)}.get(meth, ())
+                "ionice_set": (2, 0), "send_signal": (signal.SIGTERM,), "wait": (0,)}.get(meth, ())
 
-    def run(self, meth, pid=7, state="alive", site=None, err=None, records=None, notty=False, args=None):
+    def run(self, meth, pid=7, state="alive", site=None, err=None, records=None, notty=False, args=None, faults=None):
         """Returns (kind, payload): ('val', value) | ('exc', exception object); world holds calls/fired."""
         mod = self.mod
-        self.world.reset(pid, state, site, err, records, notty)
+        self.world.reset(pid, state, site, err, records, notty, faults)
         if hasattr(mod, "_pid_0_exists"):
             mod._pid_0_exists.cache_clear()
         if hasattr(mod, "convert_dos_path"):
@@ -475,16 +511,19 @@ class Layer:
             return "exc", e
 
 
-def classify(layer, kind, payload):
+def classify(layer, kind, payload, need_fired=True):
     """Canonical ladder outcome."""
     from pv.canon import B, T
     w = layer.world
     if kind == "val":
-        return T("Val") if w.fired else T("NotFired")
+        return T("Val") if (w.fired or not need_fired) else T("NotFired")
     e = payload
     n = type(e).__name__
-    if not w.fired:
+    if not w.fired and need_fired:
         return T("NotFired")
+    if n == "TimeoutExpired" and type(e).__module__ == "psutil":
+        nm = getattr(e, "name", None)
+        return T("TimeoutExpired", e.pid if isinstance(e.pid, int) else -1, B(nm) if isinstance(nm, str) else None)
     if n in ("NoSuchProcess", "ZombieProcess", "AccessDenied"):
         nm = getattr(e, "name", None)
         return T(n, e.pid if isinstance(e.pid, int) else -1, B(nm) if isinstance(nm, str) else None)
